@@ -102,7 +102,7 @@ Definition run (c : case) : sx :=
   | CMutate mu u => run_mutate mu u
   | CCall p o kw _ =>
       if Pipe.wf_pipelineb p then
-        match Pipe.run Pipe.Sym.body Pipe.Sym.pick p o kw false with
+        match Pipe.run_checked Pipe.Sym.body Pipe.Sym.pick p o kw false with
         | (Ok _, _) => SL [SS (s "accepted")]
         | (Err e, lg) => SL [SS (s "rejected"); SS (s (err_name e)); SN (length lg)]
         end
